@@ -34,9 +34,9 @@ Proof.
 Qed.
 
 (* ---- C19: one bad or unreadable file never prevents the others from being processed *)
-Theorem detect_compositional b (fs1 fs2 : list (str * file_res)) :
+Theorem detect_compositional o b (fs1 fs2 : list (str * file_res)) :
   fs1 <> [] -> fs2 <> [] ->
-  fst (detect_cmd b (fs1 ++ fs2)) = fst (detect_cmd b fs1) ++ fst (detect_cmd b fs2).
+  fst (detect_cmd o b (fs1 ++ fs2)) = fst (detect_cmd o b fs1) ++ fst (detect_cmd o b fs2).
 Proof.
   intros H1 H2. unfold detect_cmd.
   destruct fs1 as [|a fs1]; [now contradiction H1|]. destruct fs2 as [|c fs2]; [now contradiction H2|].
@@ -47,15 +47,15 @@ Definition is_out (l : line) : bool := match l with Out _ => true | Err _ => fal
 
 (* detect prints, for every file in order, exactly one line: on stdout with the class the
    library assigns (and "(completed)"), or on stderr marking the file invalid *)
-Theorem detect_one_line name f :
-  detect_one false (name, f) =
+Theorem detect_one_line o name f :
+  detect_one o false (name, f) =
   match load f with
   | inl _ => [Err (name ++ lit ": Invalid")]
   | inr (k, d) => [Out (name ++ lit ": " ++ class_name k ++ (if completed k d then lit " (completed)" else []))]
   end.
 Proof. unfold detect_one. destruct (load f) as [e|[k d]]; reflexivity. Qed.
 
-Theorem detect_status b fs : fs <> [] -> snd (detect_cmd b fs) = 0.
+Theorem detect_status o b fs : fs <> [] -> snd (detect_cmd o b fs) = 0.
 Proof. destruct fs; [intros H; now contradiction H | reflexivity]. Qed.
 
 (* merge: status 0 exactly when the collection is valid and the merge raises nothing, and
